@@ -1,0 +1,123 @@
+// Verification hooks. Compiled only with the `verif` cargo feature.
+//
+// Everything here is inert unless the matching environment variable is set:
+//
+// - `REDO_VERIF_LOG=<file>`: `event` appends one record per call
+//   (a single `write(2)` on an `O_APPEND` descriptor) of the form
+//   `H <pid> <kind> <fields>\n`.
+// - `REDO_VERIF_DELAY=<point>=<ms>[,<point>=<ms>...]`: `delay(point)` sleeps
+//   for the given number of milliseconds (`~<ms>` means a pseudo-random
+//   duration in `0..=ms`).
+// - `REDO_VERIF_GATE_REQ` / `REDO_VERIF_GATE_ACK` (FIFOs): the first process
+//   that calls `gate_init` claims the gate (and removes the variables so
+//   that its children do not); `gate` then announces the state of the event
+//   loop on REQ before every `select()` and blocks until a byte arrives on ACK.
+
+use std::cell::RefCell;
+use std::env;
+use std::fs::OpenOptions;
+use std::io::{Read, Write};
+use std::process;
+use std::thread;
+use std::time::Duration;
+
+const ENV_LOG: &str = "REDO_VERIF_LOG";
+const ENV_DELAY: &str = "REDO_VERIF_DELAY";
+const ENV_GATE_REQ: &str = "REDO_VERIF_GATE_REQ";
+const ENV_GATE_ACK: &str = "REDO_VERIF_GATE_ACK";
+
+thread_local! {
+    static GATE: RefCell<Option<(String, String, u64)>> = RefCell::new(None);
+    static RNG: RefCell<u64> = RefCell::new(0);
+}
+
+/// Append one record to the verification log.
+pub fn event(kind: &str, fields: &str) {
+    let path = match env::var_os(ENV_LOG) {
+        Some(p) if !p.is_empty() => p,
+        _ => return,
+    };
+    let line = format!("H {} {} {}\n", process::id(), kind, fields.replace('\n', " "));
+    if let Ok(mut f) = OpenOptions::new().append(true).create(true).open(path) {
+        let _ = f.write(line.as_bytes());
+    }
+}
+
+fn next_random(bound: u64) -> u64 {
+    RNG.with(|r| {
+        let mut r = r.borrow_mut();
+        if *r == 0 {
+            let t = std::time::SystemTime::now()
+                .duration_since(std::time::UNIX_EPOCH)
+                .map(|d| d.subsec_nanos() as u64)
+                .unwrap_or(1);
+            *r = (process::id() as u64).wrapping_mul(0x9E3779B97F4A7C15) ^ t | 1;
+        }
+        *r ^= *r << 13;
+        *r ^= *r >> 7;
+        *r ^= *r << 17;
+        *r % (bound + 1)
+    })
+}
+
+/// Sleep at a named point if `REDO_VERIF_DELAY` asks for it.
+pub fn delay(point: &str) {
+    let spec = match env::var(ENV_DELAY) {
+        Ok(s) if !s.is_empty() => s,
+        _ => return,
+    };
+    for item in spec.split(',') {
+        let mut kv = item.splitn(2, '=');
+        let (k, v) = match (kv.next(), kv.next()) {
+            (Some(k), Some(v)) => (k, v),
+            _ => continue,
+        };
+        if k != point {
+            continue;
+        }
+        let ms = if let Some(max) = v.strip_prefix('~') {
+            next_random(max.parse::<u64>().unwrap_or(0))
+        } else {
+            v.parse::<u64>().unwrap_or(0)
+        };
+        if ms > 0 {
+            event("delay", &format!("{} {}", point, ms));
+            thread::sleep(Duration::from_millis(ms));
+        }
+    }
+}
+
+/// Claim the gate for this process if the environment offers one.
+pub fn gate_init() {
+    if let (Ok(req), Ok(ack)) = (env::var(ENV_GATE_REQ), env::var(ENV_GATE_ACK)) {
+        env::remove_var(ENV_GATE_REQ);
+        env::remove_var(ENV_GATE_ACK);
+        GATE.with(|g| *g.borrow_mut() = Some((req, ack, 0)));
+    }
+}
+
+/// Reports whether this process owns the gate.
+pub fn gate_active() -> bool {
+    GATE.with(|g| g.borrow().is_some())
+}
+
+/// Announce `desc` and block until the harness releases the gate.
+pub fn gate(desc: &str) {
+    GATE.with(|g| {
+        let mut g = g.borrow_mut();
+        if let Some((req, ack, seq)) = g.as_mut() {
+            *seq += 1;
+            let line = format!("G {} pid={} {}\n", seq, process::id(), desc);
+            match OpenOptions::new().write(true).open(&*req) {
+                Ok(mut f) => {
+                    let _ = f.write(line.as_bytes());
+                }
+                Err(_) => return,
+            }
+            if let Ok(mut f) = std::fs::File::open(&*ack) {
+                let mut b = [0u8; 1];
+                let _ = f.read(&mut b);
+            }
+        }
+    });
+}
